@@ -62,6 +62,17 @@ var opMuts = []opMut{
 		s[2] = opb.B64E(raw)
 		b.Compact = strings.Join(s, ".")
 	}},
+	{"sig/halves-zero-padded", "urd", func(r *rand.Rand, b *built, cfg M) {
+		s := segs(r, b)
+		raw, _ := opb.B64.DecodeString(s[2])
+		if b.Key.Type == opb.Ed25519 {
+			raw = append(raw, 0)
+		} else {
+			raw = zeroPadHalves(raw, 1+r.Intn(3))
+		}
+		s[2] = opb.B64E(raw)
+		b.Compact = strings.Join(s, ".")
+	}},
 	{"sig/empty", "urd", func(r *rand.Rand, b *built, cfg M) { s := segs(r, b); s[2] = ""; b.Compact = strings.Join(s, ".") }},
 	{"segments/two", "urd", func(r *rand.Rand, b *built, cfg M) { s := segs(r, b); b.Compact = s[0] + "." + s[1] }},
 	{"segments/four", "urd", func(r *rand.Rand, b *built, cfg M) { b.Compact = b.sign(r) + "." + "AAAA" }},
@@ -240,6 +251,18 @@ var opMuts = []opMut{
 		name := map[string]string{"update": "updateKey", "recover": "recoveryKey"}[b.Typ]
 		j := b.Key.JWK()
 		j["y"] = flipBit(r, j["y"].(string))
+		b.Signed[name] = j
+		b.Reveal = opb.ModelMH(b.Code, j)
+	}},
+	{"headers/alg-in-other-case", "urd", func(r *rand.Rand, b *built, cfg M) {
+		a := b.Headers["alg"].(string)
+		b.Headers["alg"] = pick(r, []string{strings.ToLower(a), strings.ToUpper(a), strings.ToLower(a[:1]) + a[1:]})
+	}},
+	{"key/crv-in-other-case", "urd", func(r *rand.Rand, b *built, cfg M) {
+		name := map[string]string{"update": "updateKey", "recover": "recoveryKey", "deactivate": "recoveryKey"}[b.Typ]
+		j := b.Key.JWK()
+		c := j["crv"].(string)
+		j["crv"] = pick(r, []string{strings.ToLower(c), strings.ToUpper(c)})
 		b.Signed[name] = j
 		b.Reveal = opb.ModelMH(b.Code, j)
 	}},
